@@ -711,8 +711,8 @@ def main(tier, seed):
     build_harness("rdb")
     if os.environ.get("VERIF_SERVER_BIN"):
         pass          # sanity test against a separately built server: never build into the shared cache from another source tree
-    elif os.path.realpath(REPO) != "/repo":
-        raise InternalError("FERROUS_REPO is overridden: set VERIF_SERVER_BIN to a server built elsewhere (the shared cache is for /repo only)")
+    elif os.path.realpath(REPO) != "/repo" and not os.environ.get("VERIF_CACHE"):
+        raise InternalError("FERROUS_REPO is overridden: set VERIF_CACHE too (isolated run) or VERIF_SERVER_BIN to a server built elsewhere (the shared cache is for /repo only)")
     else:
         build_server()
     c = C10(rep, facts)
@@ -757,7 +757,7 @@ def replay(path):
     rep = Report("C10", "quick", obj.get("seed", 1))
     facts = source_facts()
     build_harness("rdb")
-    if not os.environ.get("VERIF_SERVER_BIN") and os.path.realpath(REPO) == "/repo":
+    if not os.environ.get("VERIF_SERVER_BIN") and (os.path.realpath(REPO) == "/repo" or os.environ.get("VERIF_CACHE")):
         build_server()
     build_driver(FAMILY)
     c = C10(rep, facts)
